@@ -7,3 +7,5 @@
 (define-fun all_present ((req V) (v V)) Bool (not (some_missing (seqof req) v 0)))
 ; Properties.__contains__: the key is covered by a declared property, a pattern, or a non-Nothing additional
 (declare-fun props_accepts (V String) Bool)
+; a built model is a value (never the "absent" marker)
+(assert (forall ((e V) (v V)) (! (not (= (build e v) v_absent)) :pattern ((build e v)))))
